@@ -12,7 +12,7 @@ AFTER_NAME = [':', ': ', ' : ', ':\n    ', ':\t']
 VALUES = [['red'], ['1px', 'solid', '#000'], ['"a;b}"'], ["'x\\'y'"], ['calc(1px + (2 * 3))'], ['10px', '20px'], ['url("a;b")'],
           ['url(a.png)', 'no-repeat'], ['a', '/', 'b'], ['1px', '-', '2px'], ['a,', 'b'], ['rgba(0, 0, 0, .5)'], ['"{"'], ['!important'],
           ['1px', '!important'], ['"a:b"'], ['f(a:b)'], ['#fff'], ['-1px'], ['no-repeat'], ['a', '+', 'b'], ['"\\""'], ['var(--x, "}")'],
-          ['1px', '*', '2'], ['"/*"']]
+          ['1px', '*', '2'], ['"/*"'], ['1px', '2px', '3px', '4px', '5em', '6%', 'auto', 'inherit', '0'], ['a', 'b', 'c', '/', 'd', 'e', 'f', 'g']]
 VALUES_WITH_COMMENT = [['x', '/* v */', 'y'], ['1px', '/* ; } */', 'solid']]
 SEMI_IN_PAREN = [['url(data:image/png;base64,aaa)'], ['url(data:x;y)', 'no-repeat'], ['f(a;b)']]
 COMMENTS = ['/* a:b; } */', '/* { */', '/**/', '/* x */', '/* ; */', '/*\n * multi\n */']
@@ -68,7 +68,7 @@ def gen_rule(rng, depth, w, recs, parent, max_depth=3, max_items=3, p_sip=0.0, a
     if parent is not None:
         parent['children'].append(rec)
         parent['items'].append(rec)
-    n = rng.randint(0, max_items)
+    n = rng.randint(0, max_items) if rng.random() < 0.95 else rng.randint(max_items + 2, max_items + 9)
     for i in range(n):
         w.add(rng.choice(WS))
         if rng.random() < 0.2:
